@@ -4,7 +4,7 @@ from fractions import Fraction
 
 from .lit import canon
 
-STYLES = ("repr", "generator", "indented", "fractions", "compact", "crlf")
+STYLES = ("repr", "generator", "indented", "fractions", "compact", "crlf", "builtins")
 
 
 def _num(x, style, rng):
@@ -28,6 +28,27 @@ def _num(x, style, rng):
 
 
 def _val(o, style, rng, ind):
+    if style == "builtins":
+        # a hand-written file that computes some of its values (the reader evaluates Python)
+        if isinstance(o, list) and len(o) >= 2 and all(type(x) is int for x in o):
+            if o == list(range(o[0], o[0] + len(o))) and rng.random() < 0.7:
+                return "list(range(%d, %d))" % (o[0], o[0] + len(o))
+            if len(set(o)) == 1 and rng.random() < 0.7:
+                return "[%r] * %d" % (o[0], len(o))
+            if o == sorted(o) and rng.random() < 0.3:
+                return "sorted(%r)" % (o[::-1],)
+        if isinstance(o, list) and len(o) >= 2 and all(isinstance(x, str) for x in o) and len(set(o)) == 1:
+            return "[%r] * %d" % (o[0], len(o))
+        if isinstance(o, tuple) and len(o) == 2 and rng.random() < 0.15:
+            return "tuple([%s, %s])" % (_val(o[0], style, rng, ind), _val(o[1], style, rng, ind))
+        if isinstance(o, float) and o == o and abs(o) < 1e6 and rng.random() < 0.3:
+            return "float(%r)" % repr(o)
+        if type(o) is int and 0 <= o < 100 and rng.random() < 0.1:
+            return "int(%r)" % str(o)
+        if type(o) is int and o >= 2 and rng.random() < 0.1:
+            return "max(%d, %d)" % (o, o - 1)
+        if isinstance(o, dict) and o and all(isinstance(k, str) and k.isidentifier() and k.isascii() for k in o) and rng.random() < 0.5:
+            return "dict(" + ", ".join("%s=%s" % (k, _val(v, style, rng, ind)) for k, v in o.items()) + ")"
     if isinstance(o, dict):
         if style == "indented":
             pad = " " * (ind + 4)
@@ -68,7 +89,8 @@ def render(games, style, seed=0):
         if style == "indented":
             txt = "# games written by hand\n" + txt
     try:
-        back = eval(txt, {"__builtins__": {"float": float}}, {})
+        back = eval(txt, {"__builtins__": {"float": float, "list": list, "range": range, "sorted": sorted, "tuple": tuple,
+                                           "int": int, "max": max, "dict": dict}}, {})
         if canon(back) == canon(games):
             return txt
     except Exception:
